@@ -120,7 +120,7 @@ static CmpResult compare_script(const Cfg& c, const bytes& script, Violations& V
         if (verbose) fprintf(stderr, "  op#%zu 0x%02x ref=%s impl=%s stack ref=%s impl=%s\n", i, opc, ref::err_name(er), ei == "" ? "OK" : ei.c_str(), impl::stack_str(m.stack).c_str(), impl::stack_str(sess.stack()).c_str());
         char opk[48]; snprintf(opk, 48, "sv=%s;op=0x%02x", impl::sv_name(c.sv), opc);
         if (er != ref::Err::OK) {
-            if (i + 1 == ops.size()) R.outcome = ref::err_name(er);
+            R.outcome = i + 1 == ops.size() ? std::string(ref::err_name(er)) : std::string(ref::err_name(er)) + "(before-last-op)";
             if (!err_matches(er, ei, sigop)) {
                 V.add(std::string("step-outcome:") + opk + ";ref=" + ref::err_name(er) + ";impl=" + (ei == "" ? "OK" : ei),
                       "op #" + std::to_string(i) + " must fail with " + ref::err_name(er) + " but the debugger reports " + (ei == "" ? "success" : ei) + "; script=" + ref::hex(script) + " cfg=" + cfg_str(c), replay_json(c, script));
